@@ -1484,7 +1484,7 @@ func (t *runner[K]) testGraph(nodes []gn[K], root int, probes []K, class string)
 			return
 		}
 		e.Line("impl.obs", "%s graph size=%d enum=%d look=%s mem=%d memlook=%s bounded=1", id, o.size, o.enum, o.look, o.mem, o.memlok)
-	case <-time.After(20 * time.Second):
+	case <-time.After(60 * time.Second):
 		e.Fail("reader-unbounded-work", "a tree reader does not finish on a small graph with shared or cyclic kids (work exponential in the number of levels, or a loop)", cs)
 		e.Line("impl.obs", "%s timeout", id)
 		t.unbounded = true
